@@ -1,6 +1,7 @@
 package wallet
 
 import (
+	"errors"
 	"time"
 
 	"github.com/btcsuite/btcd/btcutil"
@@ -85,9 +86,9 @@ func (rm *RecoveryManager) Resurrect(ns walletdb.ReadBucket,
 		for i := uint32(0); i < externalCount; i++ {
 			keyPath := externalKeyPath(i)
 			addr, err := scopedMgr.DeriveFromKeyPath(ns, keyPath)
-			if err != nil && err != hdkeychain.ErrInvalidChild {
+			if err != nil && !errors.Is(err, hdkeychain.ErrInvalidChild) {
 				return err
-			} else if err == hdkeychain.ErrInvalidChild {
+			} else if errors.Is(err, hdkeychain.ErrInvalidChild) {
 				scopeState.ExternalBranch.MarkInvalidChild(i)
 				continue
 			}
@@ -105,9 +106,9 @@ func (rm *RecoveryManager) Resurrect(ns walletdb.ReadBucket,
 		for i := uint32(0); i < internalCount; i++ {
 			keyPath := internalKeyPath(i)
 			addr, err := scopedMgr.DeriveFromKeyPath(ns, keyPath)
-			if err != nil && err != hdkeychain.ErrInvalidChild {
+			if err != nil && !errors.Is(err, hdkeychain.ErrInvalidChild) {
 				return err
-			} else if err == hdkeychain.ErrInvalidChild {
+			} else if errors.Is(err, hdkeychain.ErrInvalidChild) {
 				scopeState.InternalBranch.MarkInvalidChild(i)
 				continue
 			}
